@@ -121,7 +121,8 @@ class Pi:
             vals = {}
             for key, w in h.values.items():
                 kk = P.bagkey(key, h.range)
-                assert kk not in vals, "bag key collision"
+                while kk in vals:  # two distinct keys that mean the same value must stay observable
+                    kk += "#dup"
                 vals[kk] = num(w)
             out["vals"] = vals
         elif k == "Bin":
@@ -148,8 +149,12 @@ class Pi:
             out["nan"] = R(h.nanflow)
         elif k == "Categorize":
             out["ctype"] = h.contentType
-            out["bins"] = {str(key): R(v) for key, v in h.bins.items()}
-            assert len(out["bins"]) == len(h.bins), "category key collision"
+            out["bins"] = {}
+            for key, v in h.bins.items():
+                kk = str(key)
+                while kk in out["bins"]:
+                    kk += "#dup"
+                out["bins"][kk] = R(v)
         elif k == "Fraction":
             out["num"] = S(h.numerator)
             out["den"] = S(h.denominator)
